@@ -14,6 +14,16 @@ CLAIMED = {
         design="4/C13",
         note="Trusted: Coq kernel+vm_compute; ast translator for the gate kernels; numpy semantics of masks/views; group<->state link checked numerically (oracle), not proved.",
         technique="Coq proof (per-row conjugation theorems, all n) + source-to-Coq translator with generated equality lemmas + vm_compute correspondence"),
+    "C01": dict(
+        text="PARTIAL proof (placement layer): Coq theorems over Model V for every reachable state and all seven merge cases: each native operation issues its engine call at exactly the register position whose recorded identity is the physical qubit the handle denotes (control/target order preserved), merges preserve the bookkeeping invariant and the identity records, sending hands over the same physical qubit, identities are never duplicated. Not proved: the composition with the engine contract (C15) and the stabilizer theorems (C13/C14) into 'joint state = ideal state'; that equation is checked on every run by an independent state-vector oracle after EVERY operation of every program (direct calls and real PB), together with exact model/implementation dump equality.",
+        design="4/C01",
+        note="Trusted: Coq kernel; in-process harness; Hilbert space not formalised (stabilizer group <-> state is textbook, checked numerically by the oracle). Theorem names carry _partial.",
+        technique="Coq proof (placement refinement with ghost qubit identities, induction over operation lists) + vm_compute correspondence + state-vector oracle"),
+    "C02": dict(
+        text="Coq theorem over Model V: an explicit inductive invariant (per node: id uniqueness, register table consistency, positions of a register's simulated qubits injective/bounded/as many as the register size; network-wide: backing map held qubit -> simulated qubit total, injective and onto, ghost identities aligned) holds in every state reachable by ANY operation list on ANY network (failed operations included); corollaries: backed by exactly one existing simulated qubit, no sharing/no orphan, positions are a permutation of 0..k-1, ids unique, exact population deltas per operation. Tie: dump equality after every operation + an id()-based walk of the real object graph evaluating the same invariant.",
+        design="4/C02",
+        note="Trusted: Coq kernel; in-process harness (direct wiring / real PB in memory, virtual clock, scripted coin); sequential semantics (quiescent points only); tableau shape facts are not part of this invariant.",
+        technique="Coq proof (inductive invariant preserved by every case of every operation, induction over operation lists) + vm_compute correspondence + object-graph oracle"),
     "C05": dict(
         text="Coq theorems over Model V (sequential semantics of the virtual-node network) for every state and operation: a refused operation returns the whole network state unchanged (refusal_atomic), "
              "iff-tables for every refusal cause, no undocumented failure; model tied to the code by step-by-step dump equality (bookkeeping + exact generator matrices + returned value / exception class) on random and scripted histories.",
